@@ -1,8 +1,8 @@
 (* CommandsRefine: C04 — the mutating commands refine an abstract model on the parsed records, over
    specification-conforming files ([spec_file], Proofs/CommandsSpec.v). *)
 From Klog Require Import Base.Prelude Base.Utf8 Model.Calendar Model.Values Model.Record Model.Lines Model.Parser
-  Model.Tags Model.Reconcile Model.Commands Proofs.Lines Proofs.Parser Proofs.TagsUtf8 Proofs.Calendar
-  Spec.Spec Proofs.SpecValues Proofs.SpecEntry Proofs.SpecRecord Proofs.SpecDoc Proofs.Print
+  Model.Tags Model.Serialiser Model.Reconcile Model.Commands Proofs.Lines Proofs.Parser Proofs.TagsUtf8 Proofs.Calendar
+  Proofs.Values Spec.Spec Proofs.SpecValues Proofs.SpecEntry Proofs.SpecRecord Proofs.SpecDoc Proofs.Print
   Proofs.Style Proofs.Reconcile Proofs.Commands Proofs.Rounding Proofs.CommandsSpec.
 From Coq Require Import ZifyBool.
 Open Scope Z_scope.
@@ -918,4 +918,324 @@ Proof.
     rewrite denote_recs_set_nth, denote_s_add_entry. split; [reflexivity|]. exists bs'. exact P'.
   - destruct (track_new now cfg ds file recs d se S Hd Hv Hf Hsh We Hcr) as (file' & recs' & He & S' & Hden & P').
     exists file', recs'. split; [exact He|]. split; [exact S'|]. split; [exact Hden|exact P'].
+Qed.
+
+(* ---------------------------------------------------------------- generic: a step that inserts one entry *)
+
+(* the step inserts the texts of the specification entry [se] at the reconciler's insertion point *)
+Definition inserts_entry (step : list record -> reconciler -> cresult reconciler) (rs : list record) (rc : reconciler) (se : s_entry) : Prop :=
+  step rs rc = lift_r (lift_lines rc (insert (rc_style rc) (rc_last rc) (entry_itexts se) (rc_lines rc))).
+
+Theorem existing_record_step file recs dd i rg step rest e_abs :
+  spec_state file recs ->
+  find_record_idx dd (denote_recs recs) 0 = Some i -> nth_error recs i = Some rg ->
+  (forall rc, rc_record rc = denote_record (fst rg) ->
+     (exists b lead gs, rc_style rc = elect (determine (denote_record (fst rg)) b) (denote_recs recs) (expect_blocks 0 lead gs)
+                        /\ Forall2 group_of gs recs) ->
+     exists se, wf_entry se = true /\ no_cr_lines (entry_arg se) /\ (count_open (sr_entries (fst rg) ++ [se]) <= 1)%nat /\
+                denote_entry se = e_abs /\ inserts_entry step (denote_recs recs) rc se) ->
+  exists file' recs',
+    reconcile_file file (fun rs bs => first_creator (at_record dd rs bs :: rest rs bs)) [step] = COk file' /\
+    spec_state file' recs' /\
+    denote_recs recs' = set_nth i (add_entry e_abs (denote_record (fst rg))) (denote_recs recs) /\
+    exists bs', parse_text file' = Ok (Parsed (denote_recs recs') bs').
+Proof.
+  intros (lead & gs & C & Hsafe) Hf Hrg Hstep. unfold spec_file in C.
+  destruct (Forall2_nth_r _ _ _ _ _ (cf_groups _ _ _ _ C) Hrg) as (g & Hg & _).
+  destruct (at_record_conforming _ lead gs recs dd i rg g C Hf Hrg Hg) as (rc & Hrc & F).
+  destruct (at_record_points_at _ _ _ _ _ _ _ _ C Hsafe Hrg Hg F) as (j & P).
+  destruct (Hstep rc (arf_record _ _ _ _ _ _ _ _ F)) as (se & We & Hcr & Hopen & Hden & Hins).
+  { destruct (arf_style _ _ _ _ _ _ _ _ F) as (b & _ & Hst). exists b, lead, gs. split; [exact Hst|exact (cf_groups _ _ _ _ C)]. }
+  destruct (insert_entry_conforming _ _ _ _ _ _ _ _ _ se P We Hcr Hopen) as (L' & g' & HI & C' & Hsafe').
+  pose proof (conforms_parse _ _ _ _ C') as P'.
+  exists (text_of_lines L'), (set_nth i (s_add_entry j se (fst rg), snd rg) recs).
+  split; [|split; [|split]].
+  - rewrite reconcile_file_unfold, (spec_file_parse file lead gs recs C). cbn [cbind].
+    unfold first_creator, at_record. rewrite Hrc. cbn [flat_map app cbind run_steps fold_left].
+    rewrite Hins, HI. cbn [lift_lines lift_r cbind]. unfold make_result. cbn [with_lines rc_lines]. rewrite P'. reflexivity.
+  - exact (spec_state_of_conforms _ _ _ _ C' Hsafe').
+  - rewrite denote_recs_set_nth, denote_s_add_entry, Hden. reflexivity.
+  - eexists. exact P'.
+Qed.
+
+Theorem new_record_step cfg file recs d fmt step e_abs :
+  spec_state file recs -> valid_cdate (dt d) = true -> should_fits (cfg_should cfg) ->
+  find_record_idx (dt d) (denote_recs recs) 0 = None ->
+  (forall rc, rc_record rc = {| rec_date := d; rec_should := cfg_should cfg; rec_summary := []; rec_entries := [] |} ->
+     (exists lead gs, rc_style rc = elect default_style (denote_recs recs) (expect_blocks 0 lead gs) /\ Forall2 group_of gs recs) ->
+     exists se, wf_entry se = true /\ no_cr_lines (entry_arg se) /\
+                denote_entry se = e_abs /\ inserts_entry step (denote_recs recs) rc se) ->
+  exists file' recs',
+    reconcile_file file (fun rs bs => first_creator [at_record (dt d) rs bs; new_record d fmt (cfg_should cfg) [] rs bs]) [step] = COk file' /\
+    spec_state file' recs' /\
+    denote_recs recs' = insert_record (new_record_with cfg d fmt [e_abs] (denote_recs recs)) (denote_recs recs) /\
+    exists bs', parse_text file' = Ok (Parsed (denote_recs recs') bs').
+Proof.
+  intros (lead & gs & C & Hsafe) Hv Hsh Hnone Hstep. unfold spec_file in C.
+  set (rs := denote_recs recs) in *. set (bs := expect_blocks 0 lead gs).
+  destruct (elect_indent_ok default_style rs bs ltac:(exists I4; reflexivity)) as (j & Hj).
+  destruct (new_record_conforming _ lead gs recs d fmt (cfg_should cfg) [] j C Hsafe Hv Hsh eq_refl eq_refl)
+    as (rc & lead' & gs' & recs' & k & g_new & gap & Hrc & Hst & Heol & C' & S' & Hg' & Hrg' & Hden & Hlast & Hk).
+  fold rs bs in Hrc, Hst, Heol, Hden, Hrg', Hk. cbn [map] in Hrc.
+  set (r_new := s_new_record (new_date d fmt (elect default_style rs bs)) (cfg_should cfg) [] j) in *.
+  assert (P : points_at rc (rc_lines rc) lead' gs' recs' k (r_new, gap) g_new j).
+  { constructor; try assumption; try reflexivity.
+    - exact (Hlast eq_refl).
+    - rewrite Hst. exact Heol.
+    - rewrite Hst. exact Hj. }
+  assert (Hrec : rc_record rc = {| rec_date := d; rec_should := cfg_should cfg; rec_summary := []; rec_entries := [] |}).
+  { unfold reconciler_for_new_record in Hrc. cbv zeta in Hrc.
+    destruct rs as [|r0 rs0]; [|destruct (negb _); [|destruct (nth_error bs _); [|discriminate]]];
+      match type of Hrc with bind ?x _ = _ => destruct x; cbn [bind] in Hrc; [|discriminate|discriminate] end;
+      injection Hrc as <-; reflexivity. }
+  destruct (Hstep rc Hrec) as (se & We & Hcr & Hdene & Hins).
+  { exists lead, gs. split; [exact Hst|exact (cf_groups _ _ _ _ C)]. }
+  destruct (insert_entry_conforming _ _ _ _ _ _ _ _ _ se P We Hcr) as (L'' & g'' & HI & C'' & S'').
+  { cbn [fst]. unfold r_new, s_new_record. cbn [sr_entries app]. unfold count_open. cbn [filter]. destruct (is_open_value (se_value se)); cbn; lia. }
+  pose proof (conforms_parse _ _ _ _ C'') as P''.
+  exists (text_of_lines L''), (set_nth k (s_add_entry j se (fst (r_new, gap)), snd (r_new, gap)) recs').
+  split; [|split; [|split]].
+  - rewrite reconcile_file_unfold, (spec_file_parse file lead gs recs C). cbn [cbind]. fold rs bs.
+    unfold first_creator, at_record, new_record. rewrite (find_record_idx_none_at _ _ _ Hnone). rewrite Hrc.
+    cbn [of_outcome flat_map app cbind run_steps fold_left].
+    rewrite Hins, HI. cbn [lift_lines lift_r cbind]. unfold make_result. cbn [with_lines rc_lines]. rewrite P''. reflexivity.
+  - exact (spec_state_of_conforms _ _ _ _ C'' S'').
+  - cbn [fst snd]. rewrite denote_recs_set_nth, denote_s_add_entry, Hden, Hk, Hdene.
+    assert (Hdt : dt (rec_date (denote_record r_new)) = dt d) by (unfold r_new; rewrite (denote_s_new_record _ _ _ _ Hsh); reflexivity).
+    rewrite <- Hdt. rewrite insert_record_set_nth by reflexivity.
+    unfold r_new, new_record_with. rewrite (denote_s_new_record _ _ _ _ Hsh), (new_date_abstract d _ recs lead gs (cf_groups _ _ _ _ C)). reflexivity.
+  - eexists. exact P''.
+Qed.
+
+(* ---------------------------------------------------------------- the style of generated values, from the records *)
+
+Definition entry_style3 (r : record) : sprop bool * sprop bool * sprop nat :=
+  entry_style (rec_entries r) (st_24h default_style) (st_spaces default_style) (st_extra default_style).
+Definition default_style3 : sprop bool * sprop bool * sprop nat :=
+  (st_24h default_style, st_spaces default_style, st_extra default_style).
+
+Lemma determine_entry_style r b :
+  st_24h (determine r b) = fst (fst (entry_style3 r)) /\ st_spaces (determine r b) = snd (fst (entry_style3 r)) /\
+  st_extra (determine r b) = snd (entry_style3 r).
+Proof.
+  unfold determine, entry_style3. destruct (entry_style _ _ _ _) as [[c24 spc] ext].
+  destruct (significant_lines b) as [[sig hd] tl]. repeat split.
+Qed.
+
+(* the election over the records' own facts *)
+Definition a_elect {A} (eqb : A -> A -> bool) (fr : record -> sprop A) (base : sprop A) (rs : list record) : A :=
+  sp_val (ascertain eqb (votes_of (map fr rs)) base).
+
+Lemma styles_field {A} (f : style -> sprop A) (fr : record -> sprop A) rs : (forall r b, f (determine r b) = fr r) ->
+  forall bs, length rs = length bs -> map f (styles_of rs bs) = map fr rs.
+Proof.
+  intros Hf. unfold styles_of. induction rs as [|r rs IH]; intros [|b bs] H; try discriminate; [reflexivity|].
+  cbn [combine map fst snd]. rewrite Hf. f_equal. apply IH. cbn [List.length] in H. lia.
+Qed.
+
+Definition f24 (r : record) := fst (fst (entry_style3 r)).
+Definition fsp (r : record) := snd (fst (entry_style3 r)).
+Definition fex (r : record) := snd (entry_style3 r).
+
+Lemma elect_values_abstract base rs bs : length rs = length bs ->
+  sp_val (st_24h (elect base rs bs)) = a_elect Bool.eqb f24 (st_24h base) rs /\
+  sp_val (st_spaces (elect base rs bs)) = a_elect Bool.eqb fsp (st_spaces base) rs /\
+  sp_val (st_extra (elect base rs bs)) = a_elect Nat.eqb fex (st_extra base) rs.
+Proof.
+  intros H. unfold a_elect. rewrite elect_24h, elect_spaces, elect_extra.
+  rewrite (styles_field st_24h f24 rs (fun r b => proj1 (determine_entry_style r b)) bs H).
+  rewrite (styles_field st_spaces fsp rs (fun r b => proj1 (proj2 (determine_entry_style r b))) bs H).
+  rewrite (styles_field st_extra fex rs (fun r b => proj2 (proj2 (determine_entry_style r b))) bs H).
+  repeat split.
+Qed.
+
+Definition reformat_time (t : time) (fmt : reformat bool) (auto : bool) : time :=
+  match apply_reformat fmt auto with None => t | Some f => set_time_format t f end.
+
+(* the open range `start` writes: the given time in the notation, dash spacing and placeholder length of the style *)
+Definition a_open_range (t : time) (fmt : reformat bool) (base : sprop bool * sprop bool * sprop nat) (rs : list record) : open_range :=
+  {| o_start := reformat_time t fmt (a_elect Bool.eqb f24 (fst (fst base)) rs);
+     o_spaces := a_elect Bool.eqb fsp (snd (fst base)) rs;
+     o_extra := a_elect Nat.eqb fex (snd base) rs |}.
+
+Definition summary_or_empty (summary : list bytes) : list bytes := match summary with [] => [[]] | _ => summary end.
+
+(* ---------------------------------------------------------------- summaries as command arguments *)
+
+Definition summary_ok (summary : list bytes) : Prop :=
+  exists first more,
+    match summary with
+    | [] => first = None /\ more = []
+    | s0 :: ms => ms = map utf8_encode more /\ match first with None => s0 = [] | Some t => s0 = utf8_encode t /\ t <> [] end
+    end /\
+    match first with Some t => text_ok t = true | None => True end /\
+    forallb (fun t => text_ok t && negb (all_blank t)) more = true /\
+    no_cr_lines summary.
+
+Lemma valid_time_ok t : valid_time t -> time_ok t = true.
+Proof. unfold valid_time, time_ok. lia. Qed.
+
+Lemma open_entry_se o summary : time_ok (o_start o) = true -> summary_ok summary ->
+  exists se, wf_entry se = true /\ no_cr_lines (entry_arg se) /\
+    denote_entry se = {| e_value := VOpen o; e_summary := summary_or_empty summary |} /\
+    to_multiline (print_open_range o) summary = entry_itexts se.
+Proof.
+  intros Ht (first & more & Hshape & Hfirst & Hmore & Hcr).
+  set (v := canon_value (VOpen o)).
+  assert (Vok : value_ok (VOpen o) = true) by exact Ht.
+  pose proof (wf_canon_value _ Vok) as Wv. fold v in Wv.
+  pose proof (print_value_render _ Vok) as Pv. cbn [print_value] in Pv. fold v in Pv.
+  destruct (render_value_text_ok v Wv) as [_ Av].
+  pose proof (render_value_head v Wv) as Hh.
+  pose proof (ends_in_cr_none _ (render_value_no_cr v Wv)) as Ncr.
+  exists {| se_value := v; se_first := first; se_more := more |}.
+  split; [|split; [|split]].
+  - unfold wf_entry. cbn [se_value se_first se_more]. rewrite Wv, Hmore. destruct first as [t|]; [rewrite Hfirst|]; reflexivity.
+  - unfold no_cr_lines, entry_arg, first_tail. cbn [se_value se_first se_more forallb].
+    unfold no_cr_lines in Hcr. destruct summary as [|s0 ms].
+    + destruct Hshape as [-> ->]. cbn [map forallb]. rewrite app_nil_r, (utf8_encode_ascii _ Av). unfold no_cr. rewrite Ncr. reflexivity.
+    + destruct Hshape as [-> Hs0]. cbn [forallb] in Hcr. apply andb_true_iff in Hcr as [Hc0 Hcm]. rewrite Hcm, andb_true_r.
+      destruct first as [t|].
+      * destruct Hs0 as [-> Hne]. rewrite utf8_encode_app, (utf8_encode_ascii _ Av).
+        change (32%N :: t) with ([32%N] ++ t). rewrite utf8_encode_app, app_assoc. unfold no_cr in *.
+        rewrite ends_in_cr_app by (apply utf8_encode_nonempty; exact Hne). exact Hc0.
+      * rewrite app_nil_r, (utf8_encode_ascii _ Av). unfold no_cr. rewrite Ncr. reflexivity.
+  - unfold denote_entry. cbn [se_value se_first se_more]. unfold v. rewrite (denote_canon_value _ Vok). f_equal.
+    destruct summary as [|s0 ms].
+    + destruct Hshape as [-> ->]. reflexivity.
+    + destruct Hshape as [-> Hs0]. cbn [summary_or_empty]. destruct first as [t|]; [destruct Hs0 as [-> _]|rewrite Hs0]; reflexivity.
+  - unfold entry_itexts, first_tail. cbn [se_value se_first se_more]. rewrite Pv.
+    destruct summary as [|s0 ms].
+    + destruct Hshape as [-> ->]. cbn [to_multiline map]. rewrite app_nil_r, (utf8_encode_ascii _ Av). reflexivity.
+    + destruct Hshape as [-> Hs0]. cbn [to_multiline]. f_equal. f_equal.
+      destruct first as [t|].
+      * destruct Hs0 as [-> Hne]. rewrite utf8_encode_app, (utf8_encode_ascii _ Av).
+        change (32%N :: t) with ([32%N] ++ t). rewrite utf8_encode_app.
+        destruct (render_value v) as [|c r]; [contradiction|].
+        pose proof (utf8_encode_nonempty t Hne) as Hne'. destruct (utf8_encode t) as [|c' r']; [contradiction|]. reflexivity.
+      * rewrite Hs0, !app_nil_r, (utf8_encode_ascii _ Av). destruct (render_value v); cbn [app]; rewrite ?app_nil_r; reflexivity.
+Qed.
+
+(* ---------------------------------------------------------------- start *)
+
+Lemma find_last_idx_none p es : forall i c, existsb p es = false -> find_last_idx p es i c = c.
+Proof.
+  induction es as [|e es IH]; intros i c H; [reflexivity|]. cbn [existsb] in H. apply orb_false_iff in H as [H1 H2].
+  cbn [find_last_idx]. rewrite H1. apply IH. exact H2.
+Qed.
+
+Lemma find_last_idx_some p es : forall i c, 0 <= i -> c < i -> existsb p es = true -> i <= find_last_idx p es i c.
+Proof.
+  induction es as [|e es IH]; intros i c Hi Hc H; [discriminate|]. cbn [existsb] in H. cbn [find_last_idx].
+  destruct (p e) eqn:E.
+  - destruct (existsb p es) eqn:E2.
+    + specialize (IH (i + 1) i ltac:(lia) ltac:(lia) eq_refl). lia.
+    + rewrite (find_last_idx_none p es (i + 1) i E2). lia.
+  - cbn [orb] in H. specialize (IH (i + 1) c ltac:(lia) ltac:(lia) H). lia.
+Qed.
+
+Lemma find_open_index_none r : find_open_index r = -1 <-> existsb is_open (rec_entries r) = false.
+Proof.
+  unfold find_open_index. split.
+  - intros H. destruct (existsb is_open (rec_entries r)) eqn:E; [|reflexivity].
+    pose proof (find_last_idx_some is_open (rec_entries r) 0 (-1) ltac:(lia) ltac:(lia) E). lia.
+  - apply find_last_idx_none.
+Qed.
+
+Lemma set_time_format_valid t f : valid_time t -> valid_time (set_time_format t f).
+Proof. unfold valid_time, set_time_format. cbn. tauto. Qed.
+
+Lemma start_open_range_eq rc t fmt summary : find_open_index (rc_record rc) = -1 -> valid_time t ->
+  start_open_range rc t fmt summary =
+  lift_lines rc (insert (rc_style rc) (rc_last rc)
+    (to_multiline (print_open_range {| o_start := reformat_time t fmt (time_format_of (rc_style rc));
+                                       o_spaces := sp_val (st_spaces (rc_style rc));
+                                       o_extra := sp_val (st_extra (rc_style rc)) |}) summary) (rc_lines rc)).
+Proof.
+  intros Ho Hv. unfold start_open_range, reformat_time. rewrite Ho. cbn [Z.eqb negb].
+  change ((-1 =? -1)) with true. cbn [negb].
+  destruct (apply_reformat fmt (time_format_of (rc_style rc))) as [f|]; [|reflexivity].
+  rewrite (time_roundtrip _ (set_time_format_valid t f Hv)). reflexivity.
+Qed.
+
+(* the abstract model of start *)
+Definition a_start (cfg : config) (d : date) (fmt_d : reformat bool) (t : time) (fmt_t : reformat bool) (s : sum_args)
+  (rs : list record) : cresult (list record) :=
+  match find_record_idx (dt d) rs 0 with
+  | Some i =>
+    match nth_error rs i with
+    | Some r =>
+      if existsb is_open (rec_entries r) then CErr CEManipulation else
+      let+ summary := resolve_summary s r (previous_record (dt d) rs) in
+      COk (set_nth i (add_entry {| e_value := VOpen (a_open_range t fmt_t (entry_style3 r) rs); e_summary := summary_or_empty summary |} r) rs)
+    | None => CCrash
+    end
+  | None =>
+    let r0 := {| rec_date := d; rec_should := cfg_should cfg; rec_summary := []; rec_entries := [] |} in
+    let+ summary := resolve_summary s r0 (previous_record (dt d) rs) in
+    COk (insert_record (new_record_with cfg d fmt_d
+           [{| e_value := VOpen (a_open_range t fmt_t default_style3 rs); e_summary := summary_or_empty summary |}] rs) rs)
+  end.
+
+(* every summary the command may resolve to is a specification-conforming one *)
+Definition summaries_ok (s : sum_args) (rs : list record) : Prop :=
+  forall current previous summary, resolve_summary s current previous = COk summary ->
+    (current = {| rec_date := rec_date current; rec_should := rec_should current; rec_summary := rec_summary current; rec_entries := [] |} \/ In current rs) ->
+    summary_ok summary.
+
+Theorem start_refines now cfg a s file recs d t rs' :
+  spec_state file recs -> at_date now (a_date a) = Ok d -> at_time now cfg a = COk t -> valid_time t ->
+  valid_cdate (dt d) = true -> should_fits (cfg_should cfg) ->
+  summaries_ok s (denote_recs recs) ->
+  a_start cfg d (date_format cfg (a_date a)) t (time_format cfg a) s (denote_recs recs) = COk rs' ->
+  exists file' recs',
+    exec_simple now cfg (Start a s) file = COk file' /\
+    spec_state file' recs' /\ denote_recs recs' = rs' /\
+    exists bs', parse_text file' = Ok (Parsed (denote_recs recs') bs').
+Proof.
+  intros S Hd Ht Hvt Hv Hsh Hsum Ha. unfold a_start in Ha.
+  unfold exec_simple. rewrite Hd. cbn [of_outcome cbind]. rewrite Ht. cbn [cbind].
+  set (rs := denote_recs recs) in *.
+  destruct (find_record_idx (dt d) rs 0) as [i|] eqn:Hf.
+  - destruct (find_record_idx_nth _ _ _ _ Hf) as (k & r & -> & Hn & _). cbn [Nat.add] in *. rewrite Hn in Ha.
+    pose proof Hn as Hn'. unfold rs, denote_recs in Hn'. rewrite nth_error_map in Hn'. destruct (nth_error recs k) as [rg|] eqn:Hrg; [|discriminate].
+    injection Hn' as <-.
+    destruct (existsb is_open (rec_entries (denote_record (fst rg)))) eqn:Eopen; [discriminate|].
+    apply cbind_ok in Ha as (summary & Hres & Ha). injection Ha as <-.
+    assert (Wr : wf_record (fst rg) = true).
+    { destruct S as (lead & gs & C & _). pose proof (cf_wf _ _ _ _ C) as W. rewrite forallb_forall in W. exact (W rg (nth_error_In _ _ Hrg)). }
+    apply (existing_record_step file recs (dt d) k rg _ (fun rs bs => [new_record d (date_format cfg (a_date a)) (cfg_should cfg) [] rs bs]) _ S Hf Hrg).
+    intros rc Hrec (b & lead & gs & Hst & F).
+    assert (Hlen : length rs = length (expect_blocks 0 lead gs)).
+    { rewrite expect_blocks_length. unfold rs, denote_recs. rewrite map_length. symmetry. exact (Forall2_len _ _ _ F). }
+    destruct (elect_values_abstract (determine (denote_record (fst rg)) b) rs _ Hlen) as (E24 & Esp & Eex).
+    destruct (determine_entry_style (denote_record (fst rg)) b) as (D24 & Dsp & Dex). rewrite D24 in E24. rewrite Dsp in Esp. rewrite Dex in Eex.
+    assert (Hok : summary_ok summary).
+    { apply (Hsum _ _ _ Hres). right. exact (nth_error_In _ _ Hn). }
+    set (o := a_open_range t (time_format cfg a) (entry_style3 (denote_record (fst rg))) rs).
+    assert (Hto : time_ok (o_start o) = true).
+    { apply valid_time_ok. unfold o, a_open_range, reformat_time. cbn [o_start]. destruct (apply_reformat _ _); [apply set_time_format_valid|]; exact Hvt. }
+    destruct (open_entry_se o summary Hto Hok) as (se & We & Hcr & Hden & Hmul).
+    exists se. split; [exact We|]. split; [exact Hcr|]. split.
+    { apply (count_open_add _ _ Wr). intros _. exact Eopen. }
+    split; [exact Hden|].
+    unfold inserts_entry. rewrite Hrec. fold rs. rewrite Hres. cbn [cbind].
+    rewrite start_open_range_eq; [|rewrite Hrec; apply find_open_index_none; exact Eopen|exact Hvt].
+    rewrite <- Hmul. unfold o, a_open_range, time_format_of. rewrite Hst. fold rs. rewrite E24, Esp, Eex. reflexivity.
+  - apply cbind_ok in Ha as (summary & Hres & Ha). injection Ha as <-.
+    apply (new_record_step cfg file recs d (date_format cfg (a_date a)) _ _ S Hv Hsh Hf).
+    intros rc Hrec (lead & gs & Hst & F).
+    assert (Hlen : length rs = length (expect_blocks 0 lead gs)).
+    { rewrite expect_blocks_length. unfold rs, denote_recs. rewrite map_length. symmetry. exact (Forall2_len _ _ _ F). }
+    destruct (elect_values_abstract default_style rs _ Hlen) as (E24 & Esp & Eex).
+    assert (Hok : summary_ok summary).
+    { apply (Hsum _ _ _ Hres). left. reflexivity. }
+    set (o := a_open_range t (time_format cfg a) default_style3 rs).
+    assert (Hto : time_ok (o_start o) = true).
+    { apply valid_time_ok. unfold o, a_open_range, reformat_time. cbn [o_start]. destruct (apply_reformat _ _); [apply set_time_format_valid|]; exact Hvt. }
+    destruct (open_entry_se o summary Hto Hok) as (se & We & Hcr & Hden & Hmul).
+    exists se. split; [exact We|]. split; [exact Hcr|]. split; [exact Hden|].
+    unfold inserts_entry. rewrite Hrec. fold rs. rewrite Hres. cbn [cbind].
+    rewrite start_open_range_eq; [|rewrite Hrec; reflexivity|exact Hvt].
+    rewrite <- Hmul. unfold o, a_open_range, time_format_of, default_style3. rewrite Hst. fold rs. cbn [fst snd]. rewrite E24, Esp, Eex. reflexivity.
 Qed.
